@@ -136,10 +136,10 @@ CHECKS = {
           'contributes [fx,fy,fz].g(x_f,y_f) of its own panel at that panel\'s range, incrementable forces exactly once times the load factor; the fg/cfg kernel is '
           'proved to write g[d,3(jm+i)+d] = f_i g_j, which with the C11 series contract makes f.c the virtual work; sparse.solve and analysis.static are executed over '
           'abstract arrays for all sizes (K restricted to its non-null columns, f restricted likewise, solution scattered into zeros); StiffPanelBay.calc_fext is '
-          'executed symbolically (known finding).'),
+          'executed symbolically for 0..2 skin forces: each contributes [fx,fy,fz].g(x_f,y_f) of the skin domain (1 fixed defect).'),
     design_ref='DESIGN.md section 4 (C07)',
     note=('spsolve and remove_null_cols through assumed contracts (the real remove_null_cols/solve additionally by the bounded run-time stand-in); numbers of panels and '
-          'forces bounded (1..2 panels, 0..2 forces of each kind); linearity follows from the structure of the result, not separately proved; 2 known findings'),
+          'forces bounded (1..2 panels, 0..2 forces of each kind); linearity follows from the structure of the result, not separately proved; the stiffener point forces of StiffPanelBay.calc_fext are not under contract'),
     technique='contracts + symbolic execution (object arrays, abstract arrays); exact normal form; bounded stand-in for sparse.py'),
  'C11': dict(
     category='proof',
